@@ -578,6 +578,9 @@ func (m *Machine) ResolveResources(ctx context.Context, store Store) ([]string, 
 			if err != nil {
 				return nil, nil, err
 			}
+			if val.GetType() == machine.TypeAccount {
+				involvedAccountsMap[machine.Address(idx)] = string(val.(machine.AccountAddress))
+			}
 		case program.VariableAccountBalance:
 			acc, _ := m.getResource(res.Account)
 			address := string((*acc).(machine.AccountAddress))
